@@ -1,10 +1,13 @@
-(* Lemmas about Model/Root.v (C06), part 1: refutation witnesses. *)
+(* Lemmas about Model/Root.v (C06), part 1: refutation witnesses, sorted-set facts, the
+   queue-driven traversal against an inductive reachability relation (fuel exhaustion excluded). *)
 From Coq Require Import List NArith Lia Permutation Bool.
 From Echo Require Import Base.FinMap Base.Order Base.Bytes Model.Root.
 Import ListNotations.
 Open Scope N_scope.
 
-(* F3: two states with different reachable content and the same preimage. *)
+(* ------------------------------------------------------------------ *)
+(* F3 / F2 witnesses *)
+
 Lemma f3_same_preimage : root_preimage f3_a f3_root = root_preimage f3_b f3_root.
 Proof. vm_compute. reflexivity. Qed.
 
@@ -15,7 +18,452 @@ Lemma root_injective_refuted_w :
   exists s1 s2 r, root_preimage s1 r = root_preimage s2 r /\ reach_content s1 r <> reach_content s2 r.
 Proof. exists f3_a, f3_b, f3_root. split; [apply f3_same_preimage|apply f3_different_content]. Qed.
 
-(* F2: the accumulator's preimage is not the legacy preimage. *)
 Lemma acc_agrees_refuted_w :
   exists s r, acc_root_preimage (from_state s) r <> root_preimage s r.
 Proof. exists f2_s, f2_root. vm_compute. discriminate. Qed.
+
+(* ------------------------------------------------------------------ *)
+(* Orders *)
+
+Lemma nk_order : OrderLaws nkey_cmp.
+Proof. apply pair_order; apply N_order. Qed.
+
+Definition n_eq := ol_eq _ N_order.
+Definition n_as := ol_antisym _ N_order.
+Definition n_tr := ol_trans _ N_order.
+Definition nk_eq := ol_eq _ nk_order.
+Definition nk_as := ol_antisym _ nk_order.
+Definition nk_tr := ol_trans _ nk_order.
+
+Ltac ord := try exact n_eq; try exact n_as; try exact n_tr;
+            try exact nk_eq; try exact nk_as; try exact nk_tr.
+
+Lemma nkey_eq_dec : forall a b : nkey, {a = b} + {a <> b}.
+Proof. decide equality; apply N.eq_dec. Qed.
+
+(* ------------------------------------------------------------------ *)
+(* Sorted sets (maps with unit values) *)
+
+Section Sets.
+  Context {K : Type} (cmp : K -> K -> comparison) (L : OrderLaws cmp).
+  Let ceq := ol_eq cmp L.
+  Let cas := ol_antisym cmp L.
+  Let ctr := ol_trans cmp L.
+
+  Lemma mem_ins_iff (k k' : K) (m : list (K * unit)) : sorted cmp m ->
+    (mem cmp k (ins cmp k' tt m) = true <-> k = k' \/ mem cmp k m = true).
+  Proof.
+    intros Hs. unfold mem.
+    destruct (cmp k k') eqn:E.
+    - apply ceq in E; subst k'. rewrite (find_ins_same cmp ceq ctr) by exact Hs.
+      destruct (find cmp k m); split; auto.
+    - assert (k <> k') by (intro; subst; rewrite (proj2 (ceq k' k') eq_refl) in E; discriminate).
+      rewrite (find_ins_other cmp ceq) by assumption. split; [auto|intros [?|?]; [contradiction|auto]].
+    - assert (k <> k') by (intro; subst; rewrite (proj2 (ceq k' k') eq_refl) in E; discriminate).
+      rewrite (find_ins_other cmp ceq) by assumption. split; [auto|intros [?|?]; [contradiction|auto]].
+  Qed.
+
+  Lemma set_ins_sorted (k : K) (m : list (K * unit)) : sorted cmp m -> sorted cmp (ins cmp k tt m).
+  Proof. apply (ins_sorted cmp cas). Qed.
+
+  (* two sorted sets with the same members are equal *)
+  Lemma set_ext (m1 m2 : list (K * unit)) : sorted cmp m1 -> sorted cmp m2 ->
+    (forall k, mem cmp k m1 = mem cmp k m2) -> m1 = m2.
+  Proof.
+    intros H1 H2 H. apply (sorted_ext cmp ceq cas ctr); auto.
+    intros k. specialize (H k). unfold mem in H.
+    destruct (find cmp k m1) as [[]|], (find cmp k m2) as [[]|]; auto; discriminate.
+  Qed.
+End Sets.
+
+Lemma nmem_ins k k' rn : sorted nkey_cmp rn ->
+  (nmem k (ins nkey_cmp k' tt rn) = true <-> k = k' \/ nmem k rn = true).
+Proof. apply (mem_ins_iff nkey_cmp nk_order). Qed.
+
+Lemma wmem_ins w w' rw : sorted N.compare rw ->
+  (wmem w (ins N.compare w' tt rw) = true <-> w = w' \/ wmem w rw = true).
+Proof. apply (mem_ins_iff N.compare N_order). Qed.
+
+Lemma NoDup_app_intro {A} (l1 l2 : list A) :
+  NoDup l1 -> NoDup l2 -> (forall x, In x l1 -> In x l2 -> False) -> NoDup (l1 ++ l2).
+Proof.
+  induction l1 as [|a l1 IH]; cbn; intros H1 H2 Hd; auto.
+  inversion H1; subst. constructor.
+  - rewrite in_app_iff. intros [?|?]; [contradiction|]. eapply Hd; eauto.
+  - apply IH; auto. intros x Hx1 Hx2. eapply Hd; eauto.
+Qed.
+
+(* ------------------------------------------------------------------ *)
+(* The traversal *)
+
+Section GBFS.
+  Variable step : nkey -> list item.
+  Variable root : nkey.
+  Variable U : list nkey.
+  Hypothesis HU : forall k k', In (INode k') (step k) -> In k' U.
+
+  (* reachability as an inductive relation: the root, and every node item produced by a reachable node *)
+  Inductive GReach : nkey -> Prop :=
+  | GR_root : GReach root
+  | GR_step k k' : GReach k -> In (INode k') (step k) -> GReach k'.
+
+  Definition GReachW (w : N) : Prop :=
+    w = fst root \/ exists k, GReach k /\ In (IWarp w) (step k).
+
+  Lemma fold_visit_spec its : forall q rn rw,
+    sorted nkey_cmp rn -> sorted N.compare rw ->
+    exists new rn' rw',
+      fold_left visit its (q, rn, rw) = (q ++ new, rn', rw') /\
+      sorted nkey_cmp rn' /\ sorted N.compare rw' /\
+      NoDup new /\
+      (forall k, In k new -> nmem k rn = false /\ In (INode k) its) /\
+      (forall k, nmem k rn' = true <-> nmem k rn = true \/ In k new) /\
+      (forall k, In (INode k) its -> nmem k rn' = true) /\
+      (forall w, wmem w rw' = true <-> wmem w rw = true \/ In (IWarp w) its).
+  Proof.
+    induction its as [|a its IH]; intros q rn rw Hrn Hrw.
+    - exists [], rn, rw. cbn. rewrite app_nil_r.
+      split; [reflexivity|]. split; [assumption|]. split; [assumption|]. split; [constructor|].
+      split; [intros k []|]. split; [intros k; split; [auto|intros [?|[]]; auto]|].
+      split; [intros k []|]. intros w; split; [auto|intros [?|[]]; auto].
+    - cbn [fold_left]. destruct a as [k|w]; cbn [visit].
+      + destruct (nmem k rn) eqn:Ek.
+        * destruct (IH q rn rw Hrn Hrw) as (new & rn' & rw' & E & S1 & S2 & ND & Hn & Hm & Hi & Hw).
+          exists new, rn', rw'.
+          split; [exact E|]. split; [assumption|]. split; [assumption|]. split; [assumption|].
+          split; [|split; [|split]].
+          -- intros k0 Hk0. destruct (Hn k0 Hk0). split; [assumption|right; assumption].
+          -- exact Hm.
+          -- intros k0 [E'|Hin]; [inversion E'; subst; apply Hm; auto|auto].
+          -- intros w; split.
+             ++ intros H. apply Hw in H. destruct H; [left; assumption|right; right; assumption].
+             ++ intros [H|[H|H]]; [apply Hw; auto|discriminate|apply Hw; auto].
+        * assert (Hrn2 : sorted nkey_cmp (ins nkey_cmp k tt rn)) by (apply (set_ins_sorted nkey_cmp nk_order); auto).
+          assert (Hkk : nmem k (ins nkey_cmp k tt rn) = true) by (apply nmem_ins; auto).
+          destruct (IH (q ++ [k]) _ rw Hrn2 Hrw) as (new & rn' & rw' & E & S1 & S2 & ND & Hn & Hm & Hi & Hw).
+          exists (k :: new), rn', rw'.
+          split; [rewrite <- app_assoc in E; exact E|].
+          split; [assumption|]. split; [assumption|].
+          split; [|split; [|split; [|split]]].
+          -- constructor; auto. intros Hin. apply Hn in Hin. destruct Hin as [Hf _]. congruence.
+          -- intros k0 [<-|Hin]; [split; [assumption|left; reflexivity]|].
+             destruct (Hn k0 Hin) as [Hf Hi0]. split; [|right; assumption].
+             destruct (nmem k0 rn) eqn:E0; auto.
+             assert (nmem k0 (ins nkey_cmp k tt rn) = true) by (apply nmem_ins; auto). congruence.
+          -- intros k0; split.
+             ++ intros H. apply Hm in H. destruct H as [H|H]; [|right; right; assumption].
+                apply nmem_ins in H; auto. destruct H as [->|H]; [right; left; reflexivity|left; assumption].
+             ++ intros [H|[<-|H]]; apply Hm.
+                ** left. apply nmem_ins; auto.
+                ** left. assumption.
+                ** right; assumption.
+          -- intros k0 [E'|Hin]; [inversion E'; subst; apply Hm; left; assumption|auto].
+          -- intros w; split.
+             ++ intros H. apply Hw in H. destruct H; [left; assumption|right; right; assumption].
+             ++ intros [H|[H|H]]; [apply Hw; auto|discriminate|apply Hw; auto].
+      + assert (Hrw2 : sorted N.compare (ins N.compare w tt rw)) by (apply (set_ins_sorted N.compare N_order); auto).
+        destruct (IH q rn _ Hrn Hrw2) as (new & rn' & rw' & E & S1 & S2 & ND & Hn & Hm & Hi & Hw).
+        exists new, rn', rw'.
+        split; [exact E|]. split; [assumption|]. split; [assumption|]. split; [assumption|].
+        split; [|split; [|split]].
+        * intros k0 Hk0. destruct (Hn k0 Hk0). split; [assumption|right; assumption].
+        * exact Hm.
+        * intros k0 [E'|Hin]; [discriminate|auto].
+        * intros w0; split.
+          -- intros H. apply Hw in H. destruct H as [H|H]; [|right; right; assumption].
+             apply wmem_ins in H; auto. destruct H as [->|H]; [right; left; reflexivity|left; assumption].
+          -- intros [H|[H|H]]; apply Hw.
+             ++ left. apply wmem_ins; auto.
+             ++ inversion H; subst. left. apply wmem_ins; auto.
+             ++ right; assumption.
+  Qed.
+
+  Definition Inv (done q : list nkey) (rn : nset) (rw : wset) : Prop :=
+    sorted nkey_cmp rn /\ sorted N.compare rw /\
+    (forall k, nmem k rn = true <-> In k (done ++ q)) /\
+    NoDup (done ++ q) /\
+    (forall k, In k (done ++ q) -> GReach k) /\
+    (forall k k', In k done -> In (INode k') (step k) -> nmem k' rn = true) /\
+    (forall w, wmem w rw = true <-> w = fst root \/ exists k, In k done /\ In (IWarp w) (step k)) /\
+    In root (done ++ q) /\
+    (forall k, In k (done ++ q) -> k = root \/ In k U).
+
+  Lemma inv_init : Inv [] [root] (ins nkey_cmp root tt []) (ins N.compare (fst root) tt []).
+  Proof.
+    unfold Inv. cbn [app].
+    split; [cbn; auto|]. split; [cbn; auto|].
+    split.
+    { intros k; split.
+      - intros H. apply nmem_ins in H; [|exact I]. destruct H as [->|H]; [left; auto|discriminate].
+      - intros [<-|[]]. apply nmem_ins; [exact I|auto]. }
+    split; [constructor; [intros []|constructor]|].
+    split; [intros k [<-|[]]; constructor|].
+    split; [intros k k' []|].
+    split.
+    { intros w; split.
+      - intros H. apply wmem_ins in H; [|exact I]. destruct H as [->|H]; [left; auto|discriminate].
+      - intros [->|(k & [] & _)]. apply wmem_ins; [exact I|auto]. }
+    split; [left; auto|].
+    intros k [<-|[]]; auto.
+  Qed.
+
+  Lemma inv_step done cur q rn rw :
+    Inv done (cur :: q) rn rw ->
+    exists q2 rn2 rw2,
+      fold_left visit (step cur) (q, rn, rw) = (q2, rn2, rw2) /\ Inv (done ++ [cur]) q2 rn2 rw2.
+  Proof.
+    intros (Hrn & Hrw & Hmem & Hnd & Hreach & Hclo & Hw & Hroot & Huniv).
+    destruct (fold_visit_spec (step cur) q rn rw Hrn Hrw)
+      as (new & rn' & rw' & E & S1 & S2 & ND & Hn & Hm & Hi & Hww).
+    exists (q ++ new), rn', rw'. split; [exact E|].
+    assert (Hre : (done ++ [cur]) ++ q ++ new = (done ++ cur :: q) ++ new).
+    { rewrite <- !app_assoc. reflexivity. }
+    assert (Hcur : GReach cur) by (apply Hreach; rewrite in_app_iff; right; left; auto).
+    unfold Inv. rewrite Hre.
+    split; [assumption|]. split; [assumption|].
+    split.
+    { intros k; split.
+      - intros H. apply Hm in H. rewrite in_app_iff. destruct H as [H|H]; [left; apply Hmem; auto|right; auto].
+      - rewrite in_app_iff. intros [H|H]; apply Hm; [left; apply Hmem; auto|right; auto]. }
+    split.
+    { apply NoDup_app_intro; auto. intros x Hx1 Hx2. apply Hn in Hx2. destruct Hx2 as [Hf _].
+      apply Hmem in Hx1. congruence. }
+    split.
+    { intros k. rewrite in_app_iff. intros [H|H]; [apply Hreach; auto|].
+      apply Hn in H. destruct H as [_ H]. eapply GR_step; eauto. }
+    split.
+    { intros k k'. rewrite in_app_iff. intros [H|[<-|[]]] Hin.
+      + apply Hm. left. eapply Hclo; eauto.
+      + apply Hi; auto. }
+    split.
+    { intros w; split.
+      - intros H. apply Hww in H. destruct H as [H|H].
+        + apply Hw in H. destruct H as [H|(k & Hk & Hin)]; [left; auto|].
+          right. exists k. split; auto. rewrite in_app_iff; left; auto.
+        + right. exists cur. split; auto. rewrite in_app_iff; right; left; auto.
+      - intros [H|(k & Hk & Hin)]; apply Hww.
+        + left. apply Hw; auto.
+        + rewrite in_app_iff in Hk. destruct Hk as [Hk|[<-|[]]].
+          * left. apply Hw. right. exists k; auto.
+          * right; auto. }
+    split; [rewrite in_app_iff; left; auto|].
+    intros k. rewrite in_app_iff. intros [H|H]; [apply Huniv; auto|].
+    apply Hn in H. destruct H as [_ H]. right. eapply HU; eauto.
+  Qed.
+
+  Lemma inv_length done q rn rw : Inv done q rn rw -> (length (done ++ q) <= S (length U))%nat.
+  Proof.
+    intros (_ & _ & _ & Hnd & _ & _ & _ & _ & Huniv).
+    change (S (length U)) with (length (root :: U)).
+    apply NoDup_incl_length; auto.
+    intros k Hk. destruct (Huniv k Hk) as [->|H]; [left; auto|right; auto].
+  Qed.
+
+  Lemma gbfs_inv : forall fuel done q rn rw,
+    Inv done q rn rw -> (S (length U) <= fuel + length done)%nat ->
+    exists done' rn' rw', gbfs step fuel (q, rn, rw) = ([], rn', rw') /\ Inv done' [] rn' rw'.
+  Proof.
+    induction fuel as [|f IH]; intros done q rn rw HI Hf.
+    - cbn. pose proof (inv_length _ _ _ _ HI) as Hl. rewrite app_length in Hl.
+      destruct q as [|c q]; [|cbn in Hl; lia].
+      exists done, rn, rw. split; auto.
+    - cbn [gbfs]. destruct q as [|cur q].
+      + exists done, rn, rw. split; auto.
+      + destruct (inv_step _ _ _ _ _ HI) as (q2 & rn2 & rw2 & E & HI2).
+        rewrite E. apply (IH (done ++ [cur])); auto.
+        rewrite app_length. cbn. lia.
+  Qed.
+
+  Theorem gbfs_spec fuel : (S (length U) <= fuel)%nat ->
+    exists rn rw, gbfs step fuel (bfs_init root) = ([], rn, rw) /\
+      sorted nkey_cmp rn /\ sorted N.compare rw /\
+      (forall k, nmem k rn = true <-> GReach k) /\
+      (forall w, wmem w rw = true <-> GReachW w).
+  Proof.
+    intros Hf. unfold bfs_init.
+    destruct (gbfs_inv fuel [] [root] _ _ inv_init) as (done & rn & rw & E & HI); [cbn; lia|].
+    exists rn, rw. split; [exact E|].
+    destruct HI as (Hrn & Hrw & Hmem & Hnd & Hreach & Hclo & Hw & Hroot & Huniv).
+    rewrite app_nil_r in *.
+    assert (Hall : forall k, GReach k -> nmem k rn = true).
+    { intros k H. induction H as [|k k' Hk IHk Hin].
+      - apply Hmem; auto.
+      - apply (Hclo k k'); [apply Hmem; exact IHk|exact Hin]. }
+    split; [assumption|]. split; [assumption|].
+    split.
+    { intros k; split; [intros H; apply Hreach, Hmem; auto|apply Hall]. }
+    intros w; split.
+    - intros H. apply Hw in H. destruct H as [H|(k & Hk & Hin)]; [left; auto|].
+      right. exists k. split; auto.
+    - intros [H|(k & Hk & Hin)]; apply Hw; [left; auto|].
+      right. exists k. split; auto. apply Hmem, Hall; auto.
+  Qed.
+End GBFS.
+
+(* ------------------------------------------------------------------ *)
+(* collect_reachable_graph = the inductive reachability relation *)
+
+Lemma in_descend_items_node insts c k' :
+  In (INode k') (descend_items insts c) <->
+  exists i, find N.compare c insts = Some i /\ k' = (c, i_root i).
+Proof.
+  unfold descend_items. cbn [In]. destruct (find N.compare c insts) as [i|]; cbn [In]; split.
+  - intros [H|[H|[]]]; [discriminate|]. inversion H; subst. exists i; auto.
+  - intros (i' & E & ->). inversion E; subst. right; left; reflexivity.
+  - intros [H|[]]. discriminate.
+  - intros (i' & E & _). discriminate.
+Qed.
+
+Lemma in_descend_items_warp insts c w : In (IWarp w) (descend_items insts c) <-> w = c.
+Proof.
+  unfold descend_items. cbn [In]. destruct (find N.compare c insts) as [i|]; cbn [In]; split.
+  - intros [H|[H|[]]]; [inversion H; auto|discriminate].
+  - intros ->; left; reflexivity.
+  - intros [H|[]]. inversion H; auto.
+  - intros ->; left; reflexivity.
+Qed.
+
+Lemma in_att_items_node insts o k' :
+  In (INode k') (att_items insts o) <->
+  exists c i, o = Some (Descend c) /\ find N.compare c insts = Some i /\ k' = (c, i_root i).
+Proof.
+  unfold att_items. destruct o as [[ty bs|c]|].
+  - split; [intros []|intros (c & i & E & _); discriminate].
+  - rewrite in_descend_items_node. split.
+    + intros (i & E & ->). exists c, i; auto.
+    + intros (c' & i & E & F & ->). inversion E; subst. exists i; auto.
+  - split; [intros []|intros (c & i & E & _); discriminate].
+Qed.
+
+Lemma in_att_items_warp insts o w : In (IWarp w) (att_items insts o) <-> o = Some (Descend w).
+Proof.
+  unfold att_items. destruct o as [[ty bs|c]|].
+  - split; [intros []|discriminate].
+  - rewrite in_descend_items_warp. split; [intros ->; reflexivity|intros E; inversion E; reflexivity].
+  - split; [intros []|discriminate].
+Qed.
+
+Lemma in_step_store_node s k k' :
+  In (INode k') (step_store s k) <->
+  exists st, get_store s (fst k) = Some st /\
+    ((exists e, In e (bucket_of st (snd k)) /\
+        (k' = (fst k, e_to e) \/
+         exists c i, find N.compare (e_id e) (st_eatt st) = Some (Descend c) /\
+                     get_inst s c = Some i /\ k' = (c, i_root i)))
+     \/ (exists c i, find N.compare (snd k) (st_natt st) = Some (Descend c) /\
+                     get_inst s c = Some i /\ k' = (c, i_root i))).
+Proof.
+  unfold step_store. destruct (get_store s (fst k)) as [st|].
+  - rewrite in_app_iff, in_flat_map. split.
+    + intros [(e & He & Hin)|H].
+      * exists st. split; [reflexivity|]. left. exists e. split; [exact He|].
+        destruct Hin as [E|Hin]; [left; inversion E; reflexivity|right].
+        apply in_att_items_node in Hin. destruct Hin as (c & i & E1 & E2 & ->). exists c, i; auto.
+      * exists st. split; [reflexivity|]. right.
+        apply in_att_items_node in H. destruct H as (c & i & E1 & E2 & ->). exists c, i; auto.
+    + intros (st' & E & H). inversion E; subst st'. destruct H as [(e & He & H)|(c & i & E1 & E2 & ->)].
+      * left. exists e. split; [exact He|]. destruct H as [->|(c & i & E1 & E2 & ->)]; [left; reflexivity|right].
+        apply in_att_items_node. exists c, i; auto.
+      * right. apply in_att_items_node. exists c, i; auto.
+  - split; [intros []|intros (st & E & _); discriminate].
+Qed.
+
+Lemma in_step_store_warp s k w :
+  In (IWarp w) (step_store s k) <->
+  exists st, get_store s (fst k) = Some st /\
+    ((exists e, In e (bucket_of st (snd k)) /\ find N.compare (e_id e) (st_eatt st) = Some (Descend w))
+     \/ find N.compare (snd k) (st_natt st) = Some (Descend w)).
+Proof.
+  unfold step_store. destruct (get_store s (fst k)) as [st|].
+  - rewrite in_app_iff, in_flat_map. split.
+    + intros [(e & He & Hin)|H].
+      * exists st. split; [reflexivity|]. left. exists e. split; [exact He|].
+        destruct Hin as [E|Hin]; [discriminate|]. apply in_att_items_warp in Hin; exact Hin.
+      * exists st. split; [reflexivity|]. right. apply in_att_items_warp in H; exact H.
+    + intros (st' & E & H). inversion E; subst st'. destruct H as [(e & He & H)|H].
+      * left. exists e. split; [exact He|]. right. apply in_att_items_warp; exact H.
+      * right. apply in_att_items_warp; exact H.
+  - split; [intros []|intros (st & E & _); discriminate].
+Qed.
+
+Lemma greach_reach s r k : GReach (step_store s) r k <-> Reach s r k.
+Proof.
+  split; intros H.
+  - induction H as [|k k' Hk IH Hin]; [constructor|].
+    apply in_step_store_node in Hin. destruct Hin as (st & Est & [(e & He & [->|(c & i & E1 & E2 & ->)])|(c & i & E1 & E2 & ->)]).
+    + eapply R_edge; eauto.
+    + eapply R_edge_portal; eauto.
+    + eapply R_node_portal; eauto.
+  - induction H as [|k st e Hk IH Est He|k st c i Hk IH Est E1 E2|k st e c i Hk IH Est He E1 E2].
+    + constructor.
+    + eapply GR_step; [exact IH|]. apply in_step_store_node. exists st. split; [exact Est|].
+      left. exists e. split; [exact He|left; reflexivity].
+    + eapply GR_step; [exact IH|]. apply in_step_store_node. exists st. split; [exact Est|].
+      right. exists c, i; auto.
+    + eapply GR_step; [exact IH|]. apply in_step_store_node. exists st. split; [exact Est|].
+      left. exists e. split; [exact He|right; exists c, i; auto].
+Qed.
+
+Lemma greachw_reachw s r w : GReachW (step_store s) r w <-> ReachW s r w.
+Proof.
+  unfold GReachW. split.
+  - intros [->|(k & Hk & Hin)]; [constructor|].
+    apply greach_reach in Hk. apply in_step_store_warp in Hin.
+    destruct Hin as (st & Est & [(e & He & E)|E]).
+    + eapply RW_edge; eauto.
+    + eapply RW_node; eauto.
+  - intros H. destruct H as [|k st c Hk Est E|k st e c Hk Est He E].
+    + left; reflexivity.
+    + right. exists k. split; [apply greach_reach; exact Hk|].
+      apply in_step_store_warp. exists st. split; [exact Est|right; exact E].
+    + right. exists k. split; [apply greach_reach; exact Hk|].
+      apply in_step_store_warp. exists st. split; [exact Est|left; exists e; auto].
+Qed.
+
+(* every key that can ever be enqueued *)
+Definition universe (s : state) : list nkey :=
+  flat_map (fun wst => map (fun e => (fst wst, e_to e)) (all_edges (snd wst))) (s_stores s)
+  ++ map (fun wi => (fst wi, i_root (snd wi))) (s_insts s).
+
+Lemma universe_length s : length (universe s) = (edge_count s + length (s_insts s))%nat.
+Proof.
+  unfold universe, edge_count. rewrite app_length, map_length. f_equal.
+  induction (s_stores s) as [|[w st] l IH]; cbn; auto.
+  rewrite app_length, map_length, IH. reflexivity.
+Qed.
+
+Lemma in_bucket_all_edges st n e : In e (bucket_of st n) -> In e (all_edges st).
+Proof.
+  unfold bucket_of, all_edges. destruct (find N.compare n (st_from st)) as [b|] eqn:F; [|intros []].
+  intros He. apply in_flat_map. exists (n, b). split; [|exact He].
+  apply (find_in N.compare n_eq); exact F.
+Qed.
+
+Lemma step_store_universe s k k' : In (INode k') (step_store s k) -> In k' (universe s).
+Proof.
+  intros H. apply in_step_store_node in H. unfold universe. rewrite in_app_iff.
+  assert (Hi : forall c i, get_inst s c = Some i -> In (c, i_root i) (map (fun wi => (fst wi, i_root (snd wi))) (s_insts s))).
+  { intros c i E. apply in_map_iff. exists (c, i). split; [reflexivity|].
+    apply (find_in N.compare n_eq); exact E. }
+  destruct H as (st & Est & [(e & He & [->|(c & i & E1 & E2 & ->)])|(c & i & E1 & E2 & ->)]).
+  - left. apply in_flat_map. exists (fst k, st). split.
+    + apply (find_in N.compare n_eq); exact Est.
+    + apply in_map_iff. exists e. split; [reflexivity|]. eapply in_bucket_all_edges; eauto.
+  - right. apply Hi; auto.
+  - right. apply Hi; auto.
+Qed.
+
+Theorem reach_spec s r :
+  exists rn rw, reach s r = (rn, rw) /\
+    sorted nkey_cmp rn /\ sorted N.compare rw /\
+    (forall k, nmem k rn = true <-> Reach s r k) /\
+    (forall w, wmem w rw = true <-> ReachW s r w).
+Proof.
+  destruct (gbfs_spec (step_store s) r (universe s) (step_store_universe s) (fuel_of s))
+    as (rn & rw & E & S1 & S2 & Hn & Hw).
+  { unfold fuel_of. rewrite universe_length. lia. }
+  exists rn, rw. unfold reach. rewrite E. split; [reflexivity|].
+  split; [assumption|]. split; [assumption|]. split.
+  - intros k. rewrite Hn. apply greach_reach.
+  - intros w. rewrite Hw. apply greachw_reachw.
+Qed.
